@@ -705,7 +705,9 @@ def run(ctx: Ctx, only_files: list[str] | None = None, patch: str | None = None,
                           "nr": nr_verdicts}[dyn["lane"]](dyn)
         violations += v
         herr += h
-        samples += smp[:1]
+        if smp and not fam[dyn["lane"] + "_sampled"]:
+            fam[dyn["lane"] + "_sampled"] = 1
+            samples.insert(0, smp[0])
         traces += stc["traces_validated"]
         fam[dyn["lane"] + "_executions_compared"] += stc["traces_validated"]
         fam[dyn["lane"] + "_crashes"] += len(dyn["crashes"])
